@@ -8,6 +8,7 @@ import (
 	"fmt"
 	"math/big"
 	"reflect"
+	"strconv"
 	"strings"
 
 	"ariga.io/atlas/sql/schema"
@@ -328,6 +329,10 @@ func (r *Ref) Path() (path []PathIndex, err error) {
 					return nil, fmt.Errorf("schemahcl: unterminated string in reference %q", r.V[i:])
 				}
 				v := r.V[i+2 : i+2+idx]
+				// The identifier was quoted when the reference was built.
+				if u, err := strconv.Unquote(r.V[i+1 : i+3+idx]); err == nil {
+					v = u
+				}
 				i += 2 + idx
 				if !strings.HasPrefix(r.V[i:], "\"]") {
 					return nil, fmt.Errorf("schemahcl: missing ']' in reference %q", r.V[i:])
